@@ -15,6 +15,9 @@ PROPS = "FrameLabel FrameRefp DeadStaysDead KidsFrame TransferFrame DestroyFrame
 def write_cfg(path, spec, consts, invariants="", properties="", constraint=""):
     with open(path, "w") as f:
         f.write("SPECIFICATION %s\nCONSTANTS\n" % spec)
+        if "MaxCloneRoots" in consts:
+            consts = dict(consts)
+            consts.setdefault("RootlessDoms", "{}")
         for k, v in consts.items():
             f.write("  %s = %s\n" % (k, v))
         if constraint:
@@ -36,6 +39,9 @@ MC = {
     "ref4": dict(MaxRef=4, BUids="{}", MaxUid=1, MaxRefProps=1),
     "ref5": dict(MaxRef=5, BUids="{}", MaxUid=1, MaxRefProps=1),
     "ref5b": dict(MaxRef=5, BUids="{}", MaxUid=1, MaxRefProps=2),
+    # DOM 2 made by WeakDom::default(): no root, its first instance an orphan
+    "rootless4": dict(MaxRef=4, BUids="{}", MaxUid=1, MaxRefProps=1, RootlessDoms="{2}"),
+    "rootless5": dict(MaxRef=5, BUids="{}", MaxUid=1, MaxRefProps=1, RootlessDoms="{2}"),
 }
 
 # which properties claim which kinds of rejected trace lines
@@ -58,7 +64,7 @@ def model_check(name, props, workers, timeout=3000):
     c = MC[name]
     cfg = os.path.join(OUT, "MCWeakDom_%s.cfg" % name)
     consts = dict(MaxRef=c["MaxRef"], NumDoms=2, NumSlots=1, MaxUid=c["MaxUid"], BUids=c["BUids"],
-                  MaxRefProps=c["MaxRefProps"], MaxCloneRoots=2)
+                  MaxRefProps=c["MaxRefProps"], MaxCloneRoots=2, RootlessDoms=c.get("RootlessDoms", "{}"))
     write_cfg(cfg, "Spec", consts, invariants=INVS, properties=props)
     r = tlc("MCWeakDom", cfg, workers=workers, timeout=timeout, coverage=True, xmx="12g")
     return r
@@ -116,9 +122,9 @@ def run(pid, tier, seed, replay=None):
 
     # ---- A: model checking of the specification --------------------------------------
     mc_plan = {
-        "C09": (["struct5"], ["struct6"]),
-        "C10": (["struct5", "ref4"], ["struct6", "ref5"]),
-        "C11": (["ref4"], ["ref5", "ref5b"]),
+        "C09": (["struct5"], ["struct6", "rootless5"]),
+        "C10": (["struct5", "ref4"], ["struct6", "ref5", "rootless5"]),
+        "C11": (["ref4", "rootless4"], ["ref5", "ref5b", "rootless5"]),
         "C12": (["uid4"], ["uid5", "uid5b"]),
     }[pid]
     states = transitions = 0
